@@ -175,6 +175,24 @@ for _mean, _m, _mp in ((False, False, False), (True, False, False), (False, True
              specs=ROLL_SPECS, setup=_late_chunkval, props=("C09",) + (("C05",) if _m else ()) + (("C06",) if not _m and not _mean else ()), lemma_deps=("L-nncount", "L-cnt-bound"),
              thorough_only=(_mean != _m))
 
+# ---- rolling sum on a NARROW integer dtype (int32 values, no mask): the values are exact in float64, the running sums are accumulated in float64 (never in the values' dtype:
+#      a window sum of int32 values leaves the int32 range) and the result is the float image of the exact integer window sum.  X(r) = float image of the integer input XI32(r).
+XI32 = z3.Function("XI32", I, I)
+_ROLL_I32 = dict(ROLL_SPECS); _ROLL_I32["X"] = lambda r: F.Fin(z3.ToReal(XI32(r)))
+register(NUMBA, "_rolling_sum_or_mean_1d", "int32,chunked,mask=None,sum,min_periods=None",
+         {"group_key": "arr:int:int64", "values": "chunks:int:int32", "ngroups": "int", "window": "int", "min_periods": "none", "mask": "none", "null_value": "float", "want_mean": "const:False"},
+         {"requires": ["window >= 1", "window <= 32767", "ngroups >= 0", "isnull(null_value)"] + _CHUNK_REQ + [
+              "forall(c, 0, len(values), forall(p, 0, clen_values(c), mkfin(chunkval(c, p)) == X(off(c) + p)))",
+              "forall(r, 0, len(group_key), group_key[r] < ngroups)", "forall(k, 0, ngroups, Cnt(k, 0) == 0 and NNc(k, 0) == 0 and Pre(k, 0) == 0)"],
+          "frozen": ["group_key"], "nonneg_index": ["group_sums", "group_buffers", "group_positions", "group_non_null", "group_n_seen"],
+          "loops": {0: {"iter": "values", "invariant": ["i == off(_it0) - 1", "_it0 <= len(values)", "min_periods >= 0"] + _rs_main("(i + 1)", False, False),
+                        "self_only": {6: [(0, 6), (1, 7)], 7: [(0, 7), (1, 8)]}},
+                    1: {"iter": "arr", "invariant": ["i == off(_it0) + _it1 - 1", "_it0 < len(values)", "_it1 <= clen_values(_it0)", "min_periods >= 0"] + _rs_main("(i + 1)", False, False),
+                        "self_only": {7: [(0, 6), (1, 7)], 8: [(0, 7), (1, 8)]},
+                        "unfold": _roll_unf(False), "lemmas": ["mkfin(val) == X(i + 1)"]}},
+          "ensures": [x.replace("out[", "result[") for x in _rs_main("len(group_key)", False, False)[3:5]]},
+         specs=_ROLL_I32, setup=_late_chunkval, props=("C09", "C12"), lemma_deps=("L-nncount", "L-cnt-bound"))
+
 # ----------------------------------------------------------------------------- min_or_max_and_position and _rolling_max_or_min_1d
 # min_or_max_and_position: the result is null iff every entry is null; otherwise it IS an entry (witness: ghost slot gw) and bounds every non-null entry.
 # (The returned position is not specified: the kernel computes it off by one - enumerate(arr[i + 1:], i) - and its caller never uses it.)
